@@ -1,1 +1,707 @@
-"""Plans for C03/C19/C20 (filled in below)."""
+"""Differential checks: C03 (chunking), C19 (address independence), C20 (argument
+validation with a twin history)."""
+import itertools
+import random
+
+from . import cases as C
+from . import gen
+from . import refcodec as rc
+from .plans import Plan, SessionPlan, register
+from .world import World, Cfg, token_of
+from .analysis import Analysis
+from .mon import Out
+from .mon.pub import c17
+from .plans_session import connected, MODELS
+
+
+# ------------------------------------------------------------------ observation logs
+
+def obs_log(trace, from_step, addr=None, canonical=False):
+    """Ordered log of everything observable after step `from_step`."""
+    out = []
+    ids, dids = {}, {}
+
+    def cid(i):
+        if not canonical or not isinstance(i, int):
+            return i
+        return ids.setdefault(i, "id%d" % len(ids))
+
+    def cdid(d):
+        if not canonical:
+            return d
+        return dids.setdefault(d, "d%d" % len(dids))
+
+    conn_addr = {}
+    for e in trace:
+        if e["k"] == "build":
+            conn_addr[e["conn"]] = e["a"]
+    for e in trace:
+        if e["step"] < from_step:
+            continue
+        k = e["k"]
+        a = e.get("a", conn_addr.get(e.get("conn")))
+        if addr is not None and a != addr and k not in ("end",):
+            continue
+        t = round(e["t"], 6)
+        if k == "pkt":
+            p = e["pkt"]
+            if p is None:
+                out.append(("wire-bad", t, e["raw"]))
+            elif canonical:
+                q = dict(p)
+                if "id" in q and p["t"] in ("PUBLISH", "PUBREL", "SUBSCRIBE", "UNSUBSCRIBE"):
+                    q["id"] = cid(q["id"])
+                out.append(("wire", t, e["phase"], tuple(sorted((kk, repr(v)) for kk, v in q.items()))))
+            else:
+                out.append(("wire", t, e["phase"], e["raw"]))
+        elif k == "write" and not canonical:
+            out.append(("write", t, e["data"]))
+        elif k == "fire":
+            v = e.get("value") if e["ok"] else e.get("etype")
+            if canonical and e["ok"] and e["op"] in ("publish", "unsubscribe") and isinstance(v, int):
+                v = cid(v)
+            out.append(("fire", t, cdid(e["did"]), e["op"], e["ok"], repr(v)))
+        elif k == "api_ret":
+            if "did" in e:
+                m = e["msgId"]
+                out.append(("ret", t, cdid(e["did"]), e["op"], e["called"], cid(m) if isinstance(m, int) else m))
+            else:
+                out.append(("ret", t, e["op"], e.get("raised"), repr(e.get("ret"))))
+        elif k == "cb":
+            out.append(("cb", t, e["name"], repr(e.get("args")), e.get("reason")))
+        elif k == "tcall":
+            out.append(("tcall", t, e["what"]))
+        elif k == "lost":
+            out.append(("lost", t, e["reason"]))
+        elif k == "exc":
+            out.append(("exc", t, e["where"], e["etype"]))
+    return out
+
+
+def first_diff(a, b):
+    for n, (x, y) in enumerate(zip(a, b)):
+        if x != y:
+            return n, x, y
+    if len(a) != len(b):
+        n = min(len(a), len(b))
+        return n, (a[n] if n < len(a) else None), (b[n] if n < len(b) else None)
+    return None
+
+
+def calls_of(trace):
+    for e in reversed(trace):
+        if e["k"] == "snap":
+            return sorted((round(t, 6), n) for (t, n, _) in e["calls"])
+    return []
+
+
+# ------------------------------------------------------------------ C03
+
+BUSY = [("build", 0), ("setwin", 0, 4), ("connect", 0, True, 60, 4), ("connack", 0, 0, False),
+        ("pub", 0, 1), ("pub", 0, 2), ("pub", 0, 2), ("ack", 0, "PUBREC", "old"), ("sub", 0, "list", 2, 1),
+        ("unsub", 0, "str", 1), ("pub", 0, 1)]
+CONNECTING = [("build", 0), ("setwin", 0, 4), ("connect", 0, False, 30, 4), ("pub", 0, 1), ("pub", 0, 2)]
+PRELUDES = {"busy": BUSY, "connecting": CONNECTING}
+
+# packet specs resolved against the shadow broker of the world after the prelude
+SPECS = {
+    "puback": ("ack", "PUBACK", 0), "puback2": ("ack", "PUBACK", 1), "pubrec": ("ack", "PUBREC", 0), "pubcomp": ("ack", "PUBCOMP", 0),
+    "suback": ("ack", "SUBACK", 0), "unsuback": ("ack", "UNSUBACK", 0), "pingresp": ("pkt", {"t": "PINGRESP"}),
+    "connack": ("pkt", {"t": "CONNACK", "rc": 0, "session": False}),
+    "q0": ("pub", 0, 1, 0), "q0e": ("pub", 0, 2, -8), "q1": ("pub", 1, 3, 4), "q2": ("pub", 2, 5, 2), "rel": ("pkt", {"t": "PUBREL", "id": 5}),
+    "q1_2b": ("pub", 1, 6, 130), "q0_3b": ("pub", 0, 7, 16400), "q2_3b": ("pub", 2, 8, 16384), "q1_4b": ("pub", 1, 9, 2097152),
+    "stray": ("pkt", {"t": "PUBACK", "id": 40000}),
+}
+
+
+def resolve(w, names):
+    out = []
+    for nm in names:
+        sp = SPECS[nm]
+        if sp[0] == "pkt":
+            out.append(dict(sp[1]))
+        elif sp[0] == "ack":
+            ids = w.outstanding(0, sp[1], cur_only=False) if sp[1] != "PUBACK" or True else []
+            c = w.live.get(0)
+            if not ids:      # before CONNACK the shadow answers nothing: take what was seen on the wire
+                sh = w.shadow[0]
+                if sp[1] == "PUBACK":
+                    ids = [i for i, v in sh.pub.items() if v["qos"] == 1 and v["state"] == "sent"]
+                elif sp[1] == "PUBREC":
+                    ids = [i for i, v in sh.pub.items() if v["qos"] == 2 and v["state"] == "sent"]
+                elif sp[1] == "PUBCOMP":
+                    ids = [i for i, v in sh.pub.items() if v["state"] == "rel"]
+                elif sp[1] == "SUBACK":
+                    ids = list(sh.sub)
+                else:
+                    ids = list(sh.unsub)
+            ident = ids[sp[2] % len(ids)] if ids else 39000
+            p = {"t": sp[1], "id": ident}
+            if sp[1] == "SUBACK":
+                p["codes"] = [1, 0x80]
+            out.append(p)
+        else:
+            _, qos, ident, size = sp
+            payload = b"~9%05d~" % ident + (b"z" * size if size >= 0 else b"")
+            if size < 0:
+                payload = b""
+            out.append({"t": "PUBLISH", "qos": qos, "dup": False, "retain": bool(ident & 1), "topic": "in/é/%d" % ident,
+                        "id": ident if qos else None, "payload": payload})
+    return out
+
+
+def compositions(n):
+    """All 2^(n-1) ways to cut n bytes into consecutive chunks."""
+    for mask in range(1 << (n - 1)):
+        yield [i + 1 for i in range(n - 1) if mask >> i & 1]
+
+
+class ChunkCase(object):
+    def __init__(self, family, cfg, pname, names, cutsets):
+        self.family, self.cfg, self.pname, self.names, self.cutsets = family, cfg, pname, names, cutsets
+
+    def _run(self, cuts, pkts=None):
+        w = World(self.cfg)
+        pre = PRELUDES[self.pname]
+        for s in pre:
+            w.step(s)
+        if pkts is None:
+            pkts = resolve(w, self.names)
+        data = b"".join(rc.encode(p, 4) for p in pkts)
+        if cuts == "packets":
+            cuts, pos = [], 0
+            for p in pkts[:-1]:
+                pos += len(rc.encode(p, 4))
+                cuts.append(pos)
+        w.step(("stream", 0, pkts, list(cuts)))
+        w.step(("adv", 20))
+        return w, pkts, len(data)
+
+    def run(self, monitor):
+        r = C.CaseResult()
+        w0, pkts, n = self._run("packets")
+        base = obs_log(w0.trace, len(PRELUDES[self.pname]))
+        base_calls = calls_of(w0.trace)
+        cutsets = self.cutsets(n, pkts) if callable(self.cutsets) else self.cutsets
+        stats = {"deciding": 0, "compositions": 0, "distinct_nontrivial": 0, "stream_bytes": n}
+        effects = sum(1 for x in base if x[0] in ("wire", "fire", "cb", "tcall"))
+        for cuts in cutsets:
+            cuts = [c for c in cuts if 0 < c < n]
+            w, _, _ = self._run(cuts, pkts)
+            log = obs_log(w.trace, len(PRELUDES[self.pname]))
+            stats["compositions"] += 1
+            stats["deciding"] += 1
+            if effects:
+                stats["distinct_nontrivial"] += 1
+            d = first_diff(base, log)
+            if d is None and calls_of(w.trace) != base_calls:
+                d = ("timers", base_calls[:4], calls_of(w.trace)[:4])
+            if d is not None:
+                kind = d[1][0] if isinstance(d[1], tuple) else ("missing" if d[1] is None else str(d[0]))
+                sig = "C03.chunking-changes-behaviour/%s/%s" % (self.pname, kind if d[0] != "timers" else "timers")
+                if not r.violations:
+                    r.violations.append((sig, "stream %s cut at %r behaves differently from one packet per chunk: entry %s: %r vs %r"
+                                         % ("+".join(self.names), cuts[:8], d[0], _s(d[1]), _s(d[2])), len(PRELUDES[self.pname])))
+                    r.replay = {"kind": "chunk", "family": self.family, "cfg": self.cfg.asdict(), "prelude": self.pname,
+                                "names": list(self.names), "cuts": cuts}
+        r.evals = stats["compositions"]
+        r.stats = stats
+        r.sample = {"kind": "chunk", "prelude": self.pname, "stream": list(self.names), "bytes": n,
+                    "compositions_in_case": stats["compositions"], "baseline_effects": effects}
+        return r
+
+
+def _s(x):
+    s = repr(x)
+    return s if len(s) < 160 else s[:160] + "..."
+
+
+def all_cuts(n, pkts):
+    return compositions(n)
+
+
+def k_cuts(k, limit=None, seed=0):
+    def f(n, pkts):
+        combos = itertools.combinations(range(1, n), k)
+        if limit is None:
+            return combos
+        rng = random.Random(seed + n)
+        allc = list(itertools.islice(combos, 200000))
+        rng.shuffle(allc)
+        return allc[:limit]
+    return f
+
+
+def header_cuts(n, pkts):
+    """Every cut (and pair of cuts) inside the fixed header + length field of every packet, plus bytewise."""
+    pos = 0
+    spots = []
+    for p in pkts:
+        raw = rc.encode(p, 4)
+        used = rc.dec_len(raw, 1)[1]     # bytes of the length field
+        hdr = 1 + used + 2
+        for k in range(0, min(hdr + 3, len(raw)) + 1):
+            if 0 < pos + k < n:
+                spots.append(pos + k)
+        pos += len(raw)
+    spots = sorted(set(spots))
+    for s in spots:
+        yield [s]
+    for a, b in itertools.combinations(spots, 2):
+        yield [a, b]
+    yield spots
+    if n <= 5000:
+        yield list(range(1, n))
+
+
+def random_cuts(count, seed):
+    def f(n, pkts):
+        rng = random.Random(seed * 31 + n)
+        for _ in range(count):
+            k = rng.choice([1, 2, 3, 5, 9, 30])
+            yield sorted(rng.sample(range(1, n), min(k, n - 1)))
+    return f
+
+
+@register
+class P03(Plan):
+    prop = "C03"
+    counts_distinct_in_stats = True
+    monitor = None
+    rule = ("case = (prelude state, broker packet stream, composition of its bytes into chunks); every composition is run in a fresh world against the real protocol and its "
+            "observation log (writes, Deferred outcomes, onPublish calls, close calls, final timer table) compared with one-packet-per-chunk delivery; streams up to 12 (quick) / 16 "
+            "(thorough) bytes: all 2^(n-1) compositions; longer streams: all 1- and 2-cut (thorough: 3-cut) placements up to 64 bytes, every cut in and around each fixed header / "
+            "length field, byte-at-a-time, seeded random compositions; payloads push the remaining length to 1, 2, 3 (and in thorough 4) bytes; non-trivial = the baseline shows at least "
+            "one observable effect; distinct = distinct (stream, composition)")
+    assumptions = ["the protocol under test is the pubsubs profile with requests of every kind pending (and a second prelude still waiting for CONNACK)",
+                   "no virtual time passes while the chunks are fed; 20 s pass afterwards"]
+
+    def budget(self, tier):
+        return 150 if tier == "quick" else 1800
+
+    def min_deciding(self, tier):
+        return 20000
+
+    def required_counters(self, tier):
+        return {"compositions": 20000, "distinct_nontrivial": 15000}
+
+    def exhaustive(self, tier):
+        return ["all compositions of every listed stream of at most %d bytes" % (12 if tier == "quick" else 16)]
+
+    def cases(self, tier, seed):
+        cfg = Cfg(profile="pubsub", model="sync")
+        cfg2 = Cfg(profile="pubsub", model="tcp")
+        small = ["puback", "pubrec", "pubcomp", "suback", "unsuback", "pingresp", "puback2", "stray"]
+        limit = 12 if tier == "quick" else 16
+        sizes = {"puback": 4, "pubrec": 4, "pubcomp": 4, "suback": 6, "unsuback": 4, "pingresp": 2, "puback2": 4, "stray": 4, "connack": 4}
+        streams = []
+        for k in (1, 2, 3, 4):
+            for combo in itertools.permutations(small, k):
+                if sum(sizes[x] for x in combo) <= limit and len(set(combo)) == len(combo):
+                    streams.append(combo)
+        rng = random.Random(seed)
+        rng.shuffle(streams)
+        keep = 40 if tier == "quick" else 400
+        for st in streams[:keep]:
+            yield ChunkCase("all-compositions", cfg, "busy", st, all_cuts)
+        for st in (("connack", "puback"), ("connack", "pubrec", "pingresp"), ("connack",), ("puback", "connack", "puback")):
+            yield ChunkCase("all-compositions/connecting", cfg, "connecting", st, all_cuts)
+        mid = [("q0", "puback"), ("q1", "q0e", "suback"), ("q2", "rel", "pubcomp"), ("pingresp", "q0", "q0", "pubrec"), ("q2", "q2", "rel"),
+               ("suback", "q1", "unsuback", "q0e", "puback"), ("q0e", "q0e", "q0e")]
+        for st in mid:
+            for model_cfg in (cfg, cfg2):
+                yield ChunkCase("1-cuts", model_cfg, "busy", st, k_cuts(1))
+            yield ChunkCase("2-cuts", cfg, "busy", st, k_cuts(2))
+            yield ChunkCase("3-cuts", cfg, "busy", st, k_cuts(3, None if tier == "thorough" else 500, seed))
+            yield ChunkCase("header-cuts", cfg, "busy", st, header_cuts)
+            yield ChunkCase("random-cuts", cfg, "busy", st, random_cuts(100 if tier == "quick" else 2000, seed))
+        yield ChunkCase("1-cuts/connecting", cfg, "connecting", ("connack", "q1", "puback", "pubrec"), k_cuts(1))
+        yield ChunkCase("2-cuts/connecting", cfg, "connecting", ("connack", "q1", "puback", "pubrec"), k_cuts(2))
+        long_streams = [("q1_2b", "puback"), ("puback", "q1_2b", "q0_3b", "pubrec"), ("q2_3b", "rel", "suback"), ("q0_3b", "q1_2b", "pingresp")]
+        if tier == "thorough":
+            long_streams += [("puback", "q1_4b", "pubcomp"), ("q1_4b",)]
+        for st in long_streams:
+            yield ChunkCase("header-cuts/long", cfg, "busy", st, header_cuts)
+            yield ChunkCase("random-cuts/long", cfg, "busy", st, random_cuts(60 if tier == "quick" else 600, seed))
+
+    def case_from_replay(self, d):
+        return ChunkCase(d["family"], Cfg(**d["cfg"]), d["prelude"], tuple(d["names"]), [d["cuts"]])
+
+    def shrink(self, rep, sig):
+        return rep
+
+
+# ------------------------------------------------------------------ C19
+
+GLOBAL_STEPS = ("tick", "adv", "chunk", "placeid", "endprobe", "endmark")
+
+
+def project(steps, a):
+    return [s for s in steps if s[0] in GLOBAL_STEPS or s[1] == a]
+
+
+class TwoAddrCase(object):
+    def __init__(self, family, cfg, steps=None, walk=None):
+        self.family, self.cfg, self.steps, self.walk = family, cfg, steps, walk
+
+    def run(self, monitor):
+        r = C.CaseResult()
+        w = World(self.cfg)
+        if self.steps is not None:
+            for s in self.steps:
+                w.step(s)
+        else:
+            rng = random.Random(self.walk["seed"])
+            wk = gen.Walker(rng, self.walk["flavour"], (0, 1), None, 0, None, 8, no_tick=True)
+            wk.walk(w, self.walk["n"])
+        steps = gen.executed_steps(w.trace)
+        w.step(("adv", 50))
+        stats = {"deciding": 0, "projections": 0}
+        desc = {"kind": "twoaddr", "family": self.family, "cfg": self.cfg.asdict(), "steps": steps}
+        both = set(s[1] for s in steps if s[0] not in GLOBAL_STEPS)
+        for a in (0, 1):
+            if a not in both:
+                continue
+            w1 = World(self.cfg)
+            for s in project(steps, a):
+                w1.step(s)
+            w1.step(("adv", 50))
+            la = obs_log(w.trace, 0, addr=a, canonical=True)
+            lb = obs_log(w1.trace, 0, addr=a, canonical=True)
+            stats["projections"] += 1
+            if len(both) == 2:
+                stats["deciding"] += 1
+            d = first_diff(la, lb)
+            if d is not None:
+                kind = (d[1] or d[2])[0]
+                r.violations.append(("C19.other-address-changes-behaviour/%s" % kind,
+                                     "address %d behaves differently when address %d is active: entry %d: together %s, alone %s"
+                                     % (a, 1 - a, d[0], _s(d[1]), _s(d[2])), None))
+                break
+        A = Analysis(w.trace, self.cfg)
+        v17, st17 = c17(A)
+        for x in v17:
+            r.violations.append((x.sig.replace("C17.", "C19.identifier-collision/"), x.msg, x.step))
+        stats["allocations"] = st17.get("allocations", 0)
+        r.evals = 1
+        r.stats = stats
+        if stats["deciding"]:
+            r.keys = [C.digest([self.cfg.asdict(), steps])]
+        r.replay = desc
+        r.sample = desc
+        return r
+
+
+def interleavings(xs, ys):
+    if not xs:
+        yield list(ys)
+        return
+    if not ys:
+        yield list(xs)
+        return
+    for rest in interleavings(xs[1:], ys):
+        yield [xs[0]] + rest
+    for rest in interleavings(xs, ys[1:]):
+        yield [ys[0]] + rest
+
+
+@register
+class P19(Plan):
+    prop = "C19"
+    monitor = None
+    rule = ("case = a history over two broker addresses served by one factory; it is run three times (both addresses, address A alone, address B alone; steps of the other address "
+            "deleted, global time steps kept) and the per-address observation logs (decoded packets, Deferred outcomes, callbacks, close calls, losses, all with virtual "
+            "timestamps; identifiers and Deferred numbers renamed by rank of first appearance) must be identical; histories = every interleaving of two per-address scripts "
+            "(<= 5 + 5 steps) and seeded two-address walks with loss and clean/persistent reconnect on one side while the other is in mid-exchange; the identifier monitor of C17 "
+            "runs on the combined history; non-trivial = both addresses were active; distinct by (config, executed step list)")
+    assumptions = SessionPlan.assumptions[:3] + ["constant jitter, time advances only through explicit adv steps so both runs see the same clock"]
+
+    def required_counters(self, tier):
+        return {"projections": 4000, "allocations": 10000}
+
+    def cases(self, tier, seed):
+        A = connected(0, clean=False, win=2)
+        B = connected(1, clean=True, win=1)
+        scripts_a = [[("pub", 0, 1), ("pub", 0, 2), ("ack", 0, "PUBREC", "old"), ("lose", 0, "lost"), ("adv", 5)],
+                     [("pub", 0, 1), ("pub", 0, 1), ("pub", 0, 1), ("ack", 0, "PUBACK", "old"), ("adv", 6)],
+                     [("sub", 0, "list", 2, 1), ("unsub", 0, "str", 1), ("ack", 0, "SUBACK", "old"), ("inpub", 0, 2), ("inrel", 0, "known")]]
+        scripts_b = [[("pub", 1, 1), ("pub", 1, 2), ("adv", 5), ("ack", 1, "PUBACK", "old"), ("disconnect", 1)],
+                     [("pub", 1, 2), ("ack", 1, "PUBREC", "old"), ("lose", 1, "done"), ("build", 1), ("connect", 1, True, 0, 4)],
+                     [("sub", 1, "str", 1, 2), ("pub", 1, 0), ("pub", 1, 1), ("lose", 1, "reset"), ("adv", 1)]]
+        n = 0
+        for model in MODELS:
+            cfg = Cfg(profile="pubsub", model=model, jitter="const")
+            for sa in scripts_a:
+                for sb in scripts_b:
+                    for mix in interleavings(sa, sb):
+                        n += 1
+                        if tier == "quick" and n % 3:
+                            continue
+                        yield TwoAddrCase("interleavings", cfg, steps=A + B + mix)
+        nw = 1500 if tier == "quick" else 40000
+        for k in range(nw):
+            rng = random.Random(seed * 100019 + k)
+            cfg = Cfg(profile=rng.choice(["pubsub", "pubsub", "pub", "sub"]), model=rng.choice(MODELS), jitter="const",
+                      jitter_value=rng.choice([0.0, 0.5]), close_delay=rng.choice([0.0, 0.5]), ondisc=rng.random() < 0.7)
+            yield TwoAddrCase("walk", cfg, walk={"seed": rng.randrange(1 << 30), "flavour": rng.choice(["mixed", "pubflow", "lossy", "subflow", "timers"]),
+                                                 "n": rng.choice([20, 40, 80])})
+
+    def case_from_replay(self, d):
+        return TwoAddrCase(d["family"], Cfg(**d["cfg"]), steps=[tuple(s) for s in d["steps"]])
+
+    def shrink(self, rep, sig):
+        if rep.get("kind") != "twoaddr":
+            return rep
+        steps = list(rep["steps"])
+        cfg = Cfg(**rep["cfg"])
+
+        def fails(cand):
+            try:
+                r = TwoAddrCase("shrink", cfg, steps=cand).run(None)
+            except Exception:
+                return False
+            return any(v[0] == sig for v in r.violations)
+        if not fails(steps):
+            rep["shrunk"] = "not reproducible from the step list"
+            return rep
+        i = 0
+        runs = 0
+        while i < len(steps) and runs < 300:
+            cand = steps[:i] + steps[i + 1:]
+            runs += 1
+            if fails(cand):
+                steps = cand
+            else:
+                i += 1
+        rep["steps_original"] = len(rep["steps"])
+        rep["steps"] = steps
+        rep["shrunk"] = "one-at-a-time removal, %d runs" % runs
+        return rep
+
+
+# ------------------------------------------------------------------ C20
+
+import mqtt   # noqa: E402
+
+BIG = "x" * 65536
+BIG4 = "\U0001f600" * 16384          # 65536 bytes, 16384 characters
+OK65535 = "y" * 65535
+V31, V311 = mqtt.v31, mqtt.v311
+
+
+def arg_table():
+    """(op, args, kwargs, expect, label).  expect: 'reject' | 'accept' | 'either'."""
+    T = []
+    for n, exp in ((0, "reject"), (17, "reject"), (-1, "reject"), (100, "reject"), (1, "accept"), (16, "accept"), (8, "accept"),
+                   (None, "either"), ("3", "either")):
+        T.append(("setWindowSize", (n,), {}, exp, "window=%r" % (n,)))
+    for t, exp in ((0, "reject"), (1025, "reject"), (-5, "reject"), (1, "accept"), (1024, "accept"), (30, "accept"), (None, "either")):
+        T.append(("setTimeout", (t,), {}, exp, "timeout=%r" % (t,)))
+    for bw, f, exp in ((0, 2, "reject"), (-1, 2, "reject"), (100, 0, "reject"), (100, -1, "reject"), (1, 1, "accept"), (1000000, 3, "accept"),
+                       (0.5, 2, "accept")):
+        T.append(("setBandwith", (bw, f), {}, exp, "bandwith=%r,factor=%r" % (bw, f)))
+    base = {"keepalive": 0, "cleanStart": True, "version": V311}
+
+    def con(label, exp, cid="cid", **kw):
+        k = dict(base)
+        k.update(kw)
+        T.append(("connect", (cid,), k, exp, "connect " + label))
+    for q, exp in ((-1, "reject"), (3, "reject"), (0, "accept"), (1, "accept"), (2, "accept")):
+        con("willQoS=%d" % q, exp, willTopic="w", willMessage="m", willQoS=q)
+    for ka, exp in ((-1, "reject"), (65536, "reject"), (0, "accept"), (65535, "accept"), (300, "accept")):
+        con("keepalive=%d" % ka, exp, keepalive=ka)
+    con("v31 id 24 chars", "reject", cid="c" * 24, version=V31)
+    con("v31 id 23 chars", "accept", cid="c" * 23, version=V31)
+    con("v311 id 24 chars", "accept", cid="c" * 24, version=V311)
+    con("unknown version", "reject", version={"level": 5, "tag": "MQTT"})
+    con("version None", "reject", version=None)
+    con("will topic without message", "reject", willTopic="w")
+    con("will message without topic", "reject", willMessage="m")
+    con("password without user", "reject", password="p")
+    con("user and password", "accept", username="u", password="p€")
+    con("user only", "accept", username="u")
+    for fld in ("willTopic", "willMessage", "username", "password"):
+        for s, exp, lab in ((BIG, "reject", "65536 bytes"), (BIG4, "reject", "65536 bytes of 4-byte characters"), (OK65535, "accept", "65535 bytes")):
+            kw = {fld: s}
+            if fld == "willTopic":
+                kw["willMessage"] = "m"
+            if fld == "willMessage":
+                kw["willTopic"] = "w"
+            if fld == "password":
+                kw["username"] = "u"
+            con("%s of %s" % (fld, lab), exp, **kw)
+    con("clientId of 65536 bytes", "reject", cid=BIG)
+    con("clientId of 65535 bytes", "accept", cid=OK65535)
+    con("keepalive None", "either", keepalive=None)
+
+    def pub(label, exp, topic="t/a", msg="m", **kw):
+        T.append(("publish", (topic, msg), kw, exp, "publish " + label))
+    for q, exp in ((-1, "reject"), (3, "reject"), (0, "accept"), (1, "accept"), (2, "accept")):
+        pub("qos=%d" % q, exp, qos=q)
+    for payload, exp, lab in ((5, "reject", "int"), (5.5, "reject", "float"), (None, "reject", "None"), (b"raw", "reject", "bytes"), ([1, 2], "reject", "list"),
+                              ("text", "accept", "str"), (bytearray(b"\x00\xff"), "accept", "bytearray"), ("", "accept", "empty str")):
+        for q in (0, 1):
+            pub("payload %s qos %d" % (lab, q), exp, msg=payload, qos=q)
+    pub("topic of 65536 bytes", "reject", topic=BIG, qos=1)
+    pub("topic of 65536 bytes (4-byte characters)", "reject", topic=BIG4, qos=0)
+    pub("topic of 65535 bytes", "accept", topic=OK65535, qos=1)
+    pub("qos None", "either", qos=None)
+
+    def sub(label, exp, *a, **kw):
+        T.append(("subscribe", a, kw, exp, "subscribe " + label))
+    for q, exp in ((-1, "reject"), (3, "reject"), (0, "accept"), (2, "accept")):
+        sub("str shape qos=%d" % q, exp, "t/s", q)
+        sub("tuple shape qos=%d" % q, exp, ("t/s", q))
+        sub("list shape qos=%d" % q, exp, [("t/a", 1), ("t/s", q)])
+    for topics, lab in ((5, "int"), (None, "None"), ({"t": 1}, "dict"), (b"t/s", "bytes"), (5.5, "float")):
+        sub("topics of type %s" % lab, "reject", topics)
+        T.append(("unsubscribe", (topics,), {}, "reject", "unsubscribe topics of type %s" % lab))
+    T.append(("unsubscribe", ("t/u",), {}, "accept", "unsubscribe str"))
+    T.append(("unsubscribe", (["t/u", "t/v"],), {}, "accept", "unsubscribe list"))
+    T.append(("unsubscribe", (("t/u", "t/v"),), {}, "reject", "unsubscribe topics of type tuple"))
+    return T
+
+
+STATES20 = {
+    "idle": [("build", 0)],
+    "connecting": [("build", 0), ("setwin", 0, 3), ("connect", 0, True, 0, 4)],
+    "connecting-busy": [("build", 0), ("setwin", 0, 1), ("connect", 0, False, 0, 3), ("pub", 0, 1), ("pub", 0, 2)],
+    "connected": connected(win=3),
+    "connected-busy": connected(win=4, ka=30) + [("pub", 0, 1), ("pub", 0, 2), ("ack", 0, "PUBREC", "old"), ("sub", 0, "str", 1, 1), ("unsub", 0, "str", 1)],
+    "connected-full": connected(win=1) + [("pub", 0, 1), ("pub", 0, 1), ("pub", 0, 0)],
+}
+POST20 = [("pub", 0, 1), ("adv", 3), ("ack", 0, "PUBACK", "old"), ("adv", 40), ("lose", 0, "lost"), ("adv", 2)]
+
+
+def where_allowed(op, prof, state):
+    if op in ("setWindowSize", "setTimeout", "setBandwith"):
+        return True
+    if op == "connect":
+        return state == "idle"
+    if op == "publish":
+        return prof in ("pub", "pubsub") and state != "idle"
+    return prof in ("sub", "pubsub") and state.startswith("connected")
+
+
+class ArgCase(object):
+    def __init__(self, cfg, sname, row, idx):
+        self.family = "args/" + row[0]
+        self.cfg, self.sname, self.row, self.idx = cfg, sname, row, idx
+
+    def run(self, monitor):
+        op, args, kw, exp, label = self.row
+        pre = STATES20[self.sname]
+        post = POST20 if op != "connect" else [("connack", 0, 0, False), ("pub", 0, 1), ("adv", 12), ("lose", 0, "done"), ("adv", 1)]
+        w = World(self.cfg)
+        for s in pre:
+            w.step(s)
+        w.step(("call", 0, op, args, kw))
+        callstep = w.step_no
+        for s in post:
+            w.step(s)
+        r = C.CaseResult()
+        r.evals = 1
+        st = {"deciding": 1, "rows/" + exp: 1, "ops/" + op: 1}
+        evs = [e for e in w.trace if e["step"] == callstep]
+        ret = [e for e in evs if e["k"] == "api_ret"][0]
+        fires = [e for e in evs if e["k"] == "fire"]
+        wrote = [e for e in evs if e["k"] == "write"]
+        snaps = {e["step"]: e for e in w.trace if e["k"] == "snap"}
+        before, after = snaps[callstep - 1], snaps[callstep]
+        sig = None
+        if "did" in ret:
+            if ret["called"] and fires and not fires[0]["ok"]:
+                outcome = "failed:" + ("value" if fires[0]["is_value"] else "type" if fires[0]["is_type"] else fires[0]["etype"])
+            elif ret["called"]:
+                outcome = "accepted"
+            else:
+                outcome = "accepted"
+        elif ret.get("raised"):
+            outcome = "raised:" + ("value" if ret["exc_is_value"] else "type" if ret["exc_is_type"] else ret["raised"])
+        else:
+            outcome = "accepted"
+        rejected_ok = outcome in ("failed:value", "failed:type", "raised:value", "raised:type")
+        setter = op.startswith("set")
+        tag = "%s/%s" % (op, label.replace(" ", "-"))
+        if exp == "reject":
+            if outcome == "accepted":
+                sig, msg = "invalid-accepted/" + tag, "%s was accepted (%s state, profile %s)" % (label, self.sname, self.cfg.profile)
+            elif not rejected_ok:
+                sig, msg = "wrong-rejection/" + tag, "%s refused with %s instead of ValueError/TypeError" % (label, outcome.split(":")[1])
+            elif setter and not outcome.startswith("raised"):
+                sig, msg = "wrong-rejection-channel/" + tag, "%s should raise" % label
+            elif not setter and outcome.startswith("raised"):
+                sig, msg = "wrong-rejection-channel/" + tag, "%s raised instead of returning a failed Deferred" % label
+        elif exp == "accept":
+            if outcome != "accepted":
+                # a full subscribe window legitimately refuses with MQTTWindowError
+                et = fires[0]["etype"] if fires else ret.get("raised")
+                if et != "MQTTWindowError":
+                    sig, msg = "valid-rejected/" + tag, "%s refused with %s (%s state, profile %s)" % (label, et, self.sname, self.cfg.profile)
+        else:
+            if outcome != "accepted" and not rejected_ok:
+                sig, msg = "wrong-rejection/" + tag, "%s refused with %s instead of ValueError/TypeError" % (label, outcome.split(":")[1])
+        if sig is None and outcome != "accepted":
+            # atomicity: nothing written, no timer, state unchanged, and the rest of the history as if never called
+            if wrote:
+                sig, msg = "refusal-not-atomic/wrote/" + tag, "refused %s wrote %d bytes" % (label, len(wrote[0]["data"]))
+            elif sorted(before["calls"]) != sorted(after["calls"]):
+                sig, msg = "refusal-not-atomic/timer/" + tag, "refused %s changed the timer table" % label
+            elif before["states"] != after["states"]:
+                sig, msg = "refusal-not-atomic/state/" + tag, "refused %s changed the protocol state %r -> %r" % (label, before["states"], after["states"])
+            else:
+                w2 = World(self.cfg)
+                for s in pre:
+                    w2.step(s)
+                for s in post:
+                    w2.step(s)
+                la = obs_log(w.trace, callstep + 1, canonical=True)
+                lb = obs_log(w2.trace, callstep, canonical=True)
+                d = first_diff(la, lb)
+                st["twins"] = 1
+                if d is not None:
+                    sig, msg = "refusal-not-atomic/later/" + tag, "after refused %s the history differs from its twin: %s vs %s" % (label, _s(d[1]), _s(d[2]))
+        if sig is not None:
+            r.violations.append(("C20." + sig, msg, callstep))
+        r.stats = st
+        desc = {"kind": "args", "cfg": self.cfg.asdict(), "state": self.sname, "row": self.idx, "label": label, "expect": exp, "outcome": outcome}
+        r.keys = [C.digest([self.cfg.profile, self.cfg.model, self.sname, self.idx])]
+        r.sample = desc
+        r.replay = desc
+        return r
+
+
+@register
+class P20(Plan):
+    prop = "C20"
+    monitor = None
+    rule = ("case = (profile, transport model, protocol state with or without requests pending, one API call from the argument table: lowest/highest accepted value, first rejected "
+            "value on both sides, interior values, wrong types and None for every argument the statement lists); judged: outcome class (accepted / ValueError / TypeError / other), "
+            "channel (raise for setters, failed Deferred elsewhere), atomicity of a refusal (no write, timer table and state unchanged in the call step, and the rest of the history "
+            "identical to a twin history without the call); every case is distinct and non-trivial")
+    assumptions = SessionPlan.assumptions[:3] + ["arguments the statement does not enumerate (e.g. None where a number is expected) may be refused by raising or by a failed Deferred"]
+
+    def exhaustive(self, tier):
+        return ["argument table x profiles x states in which the call is otherwise allowed x transport models"]
+
+    def min_deciding(self, tier):
+        return 1000
+
+    def required_counters(self, tier):
+        return {"rows/reject": 500, "rows/accept": 300, "twins": 300}
+
+    def cases(self, tier, seed):
+        table = arg_table()
+        for prof in ("pubsub", "pub", "sub"):
+            for model in MODELS:
+                cfg = Cfg(profile=prof, model=model)
+                for sname in STATES20:
+                    for idx, row in enumerate(table):
+                        if where_allowed(row[0], prof, sname):
+                            yield ArgCase(cfg, sname, row, idx)
+
+    def case_from_replay(self, d):
+        return ArgCase(Cfg(**d["cfg"]), d["state"], arg_table()[d["row"]], d["row"])
+
+    def shrink(self, rep, sig):
+        return rep
